@@ -75,7 +75,7 @@ def _chunk(args):
             out['called'] |= I.called
             out['modelled'] |= I.modelled
             if outcome == 'panic':
-                rec = scn.on_panic(I, ctx, err, _replay) if hasattr(scn, 'on_panic') else {'role': 'panic/%s@%s' % (err.kind, err.site), 'detail': str(err)}
+                rec = scn.on_panic(I, ctx, err, _replay) if hasattr(scn, 'on_panic') else {'prop': 'C13', 'role': 'panic/%s@%s' % (err.kind, err.site.split('/')[0]), 'detail': str(err) + ' (no native replay for this scenario)'}
                 if rec is not None:
                     rec['trace'] = list(ctx.trace)
                     out['panics'].append(rec)
